@@ -36,7 +36,7 @@ RULE = ("ops: roundtrip (ADMGs 0-8 nodes with isolated / bidirected-only nodes, 
         "and at least two observed nodes remain; a roundtrip case when it has an edge-less node or >=2 bidirected edges.")
 ASSUMPTIONS = [
     "clause 'separation relations among observed nodes are unchanged': proved in full for observed a != b and observed conditioning sets not containing them. The walk formulation used by simplify_dsep_invariant / dsep_iff_msep_projection is proved equal to the textbook simple-PATH definition MG.MConnPath of property C04 (dconn_walk_iff_path, mconn_walk_iff_path), and the clause is restated with it and with the executable C04 model MG.dSeparated (lvdag_dsep_model_eq_projection, simplify_preserves_dsep_model, simplify_dsep_verdict_iff_no_path). What ties MG.dSeparated to y0's are_d_separated is property C04's correspondence check, not C16's; the C16 oracle still cross-checks walk vs path enumeration on every generated case, on the DAG and on the projection",
-    "clause 'identifiability verdicts unchanged': theorem by congruence only (ID as any function of the mixed graph that respects NxMixedGraph.__eq__); that y0's identify() respects __eq__ is not proved here; the harness runs identify_outcomes on the independent projection and on y0's output for sampled queries",
+    "clause 'identifiability verdicts unchanged': proved without a congruence hypothesis for the ID MODEL of property C02 (Y0/Model/Id.lean): id_verdict_equiv_congr (the verdict of `identify` is the same on two graphs that are NxMixedGraph.__eq__, for every pair of admissible topological sorters: the orders networkx returns may differ between the two graphs), simplify_id_verdict, evans_id_verdict, evans_id_verdict_latents. Assumed about networkx: TopoGood (topological_sort of a well-formed acyclic graph returns a list of exactly the nodes). What ties the ID model to y0's identify() is property C02's correspondence check, not C16's; the C16 harness still runs identify_outcomes on the independent projection and on y0's output for sampled queries",
     "theorem hypotheses: D.WF (distinct nodes/edges, edge endpoints are nodes, every node tagged: what building an nx.DiGraph gives), D.Acyclic, and for the names only `Function.Injective fresh` (u_i distinct) and `forall n, n < prime n` (a primed name is a longer string); bidirected self-loops are excluded from the round trip (not an ADMG)",
     "networkx topological_sort on a graph mutated during iteration is modelled as the order of the input graph (argued in Model/Latent.lean); correspondence compares results as sets, names invented for new latents are compared by their child sets",
     "in-place mutation: simplify_latent_dag mutates its argument and leaves it half-rewritten when it raises; the model is pure and returns the final graph (runtime clause, not claimed)",
@@ -783,7 +783,7 @@ def finding_key(case, res):
 
 
 MANIFEST = {
-    "text": ("Proof: 27 Lean theorems about the executable model of graph.py (_latent_dag / to_latent_variable_dag / "
+    "text": ("Proof: 43 Lean theorems about the executable model of graph.py (_latent_dag / to_latent_variable_dag / "
              "from_latent_variable_dag) and simplify_latent.py (four rules, simplify_latent_dag, evans_simplify), for ALL "
              "well-formed inputs, no size bound. Round trip: from(to(G)) == G for every mixed graph incl. edge-less nodes "
              "and nodes already called u_i (roundtrip, toLV_is_projection). Simplification of any well-formed acyclic LV-DAG "
@@ -792,12 +792,18 @@ MANIFEST = {
              "is idempotent literally (simplify_idem), yields a flat irredundant DAG (simplify_simplified), and the mixed graph "
              "read off it is exactly the relationally defined latent projection of the ORIGINAL DAG (simplify_projection; one "
              "lemma per rule rule1..rule4_*_sameProj; fromLV_is_projection). evans_simplify returns the projection "
-             "(evans_projection, evans_id). 'Consequently' clause: simplify_dsep_invariant proves that d-connection among observed nodes given "
-             "any observed conditioning set is the same inside the simplified and the original LV-DAG (walk formulation; "
-             "one lemma per rule), and verdict_invariant gives equal answers for every function of the projected graph "
-             "that respects __eq__ (separation tests, ID); dsep_iff_msep_projection proves that d-connection inside ANY "
-             "well-formed acyclic LV-DAG equals m-connection in its latent projection (proved by simplifying first). Not "
-             "mechanised, oracle only: the walk formulation of d-/m-connection used in these theorems = the path formulation."),
+             "(evans_projection, evans_id). 'Consequently' clause, separation: d-connection among observed nodes given any "
+             "observed conditioning set is the same inside the simplified and the original LV-DAG (simplify_dsep_invariant, one "
+             "lemma per rule) and equals m-connection in the latent projection (dsep_iff_msep_projection); the walk formulation "
+             "these are proved with is proved equal to the textbook simple-path definition MConnPath of property C04 "
+             "(dconn_walk_iff_path, mconn_walk_iff_path), and the clause is restated with it and with the executable "
+             "are_d_separated model of C04: same verdict on the LV-DAG itself (latents as ordinary nodes), on any latent "
+             "projection and on the graph read off the simplified DAG (lvdag_dsep_model_eq_projection, "
+             "simplify_preserves_dsep_model, simplify_dsep_verdict_iff_no_path). 'Consequently' clause, identifiability: the "
+             "verdict of the ID model of C02 does not depend on insertion order nor on the topological orders networkx returns "
+             "(id_verdict_equiv_congr, by induction along the ID recursion), hence is the same on the graph read off the "
+             "simplified DAG and on any latent projection of the original (simplify_id_verdict, evans_id_verdict, "
+             "evans_id_verdict_latents). verdict_invariant: the same for every function of the graph respecting __eq__."),
     "note": ("Trusted: Lean kernel; axioms propext/Classical.choice/Quot.sound; Spec/LatentSpec.lean (definition of latent "
              "projection, WF, Acyclic); the hand-written model tied to the code by differential sampling on every run "
              "(networkx DiGraph/topological_sort behaviour under mutation is modelled); Python string order of names is "
